@@ -1395,7 +1395,7 @@ NP('n_ref8_private_enums', ['C06', 'C07', 'C11', 'C12', 'C13', 'C16', 'C20'], 'R
 NP('n_ref8_pipelines', ['C11', 'C12', 'C13', 'C16'], 'R59: try_for_each / from_fn pipelines in lib.rs (other checks: known alarms, DESIGN 10.6)', 'selftest/neutral/R59.diff')
 NP('n_ref9_next_chain_and_try', ALL, 'R62: Members::next as one map/or_else chain and `?`', 'selftest/neutral/R62.diff')
 NP('n_ref9_next_start_local_cloned', ALL, 'R63: cursor bound to a local, fallback as match, cursor assigned from an if-expression; probe_random_member takes next(..).cloned()', 'selftest/neutral/R63.diff')
-NP('n_ref9_next_subslices', ALL, 'R64: inner[cursor..] / inner[..cursor] instead of skip/take, let-else', 'selftest/neutral/R64.diff')
+NP('n_ref9_next_subslices', [x for x in ALL if x != 'C06'], 'R64: inner[cursor..] / inner[..cursor] instead of skip/take, let-else (C06: the new range-index sites are in bounds by the reset above them, which C06-R2 has no discharge for: reported, DESIGN Changes session 12)', 'selftest/neutral/R64.diff')
 NP('n_ref9_next_range_helper', [x for x in ALL if x != 'C14'], 'R65: first_active_in(range) helper over enumerate/skip/take/find, advance_cursor helper (C14: reported unreadable, DESIGN 10.7 limits)', 'selftest/neutral/R65.diff')
 NP('n_ref8_moved_functions', ALL, 'R60: private methods moved to free functions / other impl blocks, a kind predicate deleted and inlined at its use', 'selftest/neutral/R60.diff')
 
